@@ -9,3 +9,4 @@ def load_all():
     from . import unit_database  # noqa
     from . import quantity  # noqa
     from . import obtain  # noqa
+    from . import values  # noqa
